@@ -10,11 +10,7 @@ from . import tlc, dag
 
 CFG = '''SPECIFICATION Spec
 CONSTANTS
-  MaxNodes = {MaxNodes}
-  MaxOps = {MaxOps}
-  MaxLeaves = {MaxLeaves}
-  Ops {Ops}
-  LeafSet {LeafSet}
+  Families <- VFFamilies
   EmitMin = {EmitMin}
 INVARIANT ShapeSound
 INVARIANT IxSound
@@ -27,29 +23,36 @@ def canon(nodes):
     return json.dumps([[n['op'], n['d'], n['p'], n['sh'], n['dt']] for n in nodes], separators=(',', ':'))
 
 
-def generate(rep, tag, *, MaxNodes, MaxOps, MaxLeaves, Ops='AllOps', LeafSet='AllLeaves', EmitMin=1,
-             simulate=None, depth=None, seed=0, exhaustive=False, timeout=600, extra_defs=''):
-    """run ExprBuilder; returns list of distinct programs (each a list of node dicts)"""
-    bind = lambda v: ('= ' if v.startswith('{') else '<- ') + v
-    cfg = CFG.format(MaxNodes=MaxNodes, MaxOps=MaxOps, MaxLeaves=MaxLeaves, Ops=bind(Ops), LeafSet=bind(LeafSet), EmitMin=EmitMin)
+def _famdef(f):
+    return 'Fam({}, {}, {}, {}, {})'.format(f.get('Ops', 'AllOps'), f.get('LeafSet', 'AllLeaves'), f['MaxNodes'], f['MaxOps'], f['MaxLeaves'])
+
+
+def generate_multi(rep, tag, families, *, EmitMin=1, simulate=None, depth=None, seed=0, exhaustive=False, timeout=900):
+    """run ExprBuilder once over a list of vocabularies (dicts with Ops, LeafSet, MaxNodes, MaxOps, MaxLeaves; the
+    family is chosen in the initial state); returns a list (per family) of lists of distinct programs"""
+    defs = 'VFFamilies == << ' + ',\n  '.join(_famdef(f) for f in families) + ' >>'
+    p = os.path.join(tlc.workdir(tag + '-defs'), 'MCExprBuilderX.tla')
+    with open(p, 'w') as f:
+        f.write('---- MODULE MCExprBuilderX ----\nEXTENDS MCExprBuilder\n' + defs + '\n====\n')
     kw = {}
     if simulate:
-        kw = dict(simulate=dict(num=simulate), depth=depth or MaxNodes + 1, seed=seed)
-    extra = []
-    if extra_defs:
-        p = os.path.join(tlc.workdir(tag + '-defs'), 'MCExprBuilderX.tla')
-        with open(p, 'w') as f:
-            f.write('---- MODULE MCExprBuilderX ----\nEXTENDS MCExprBuilder\n' + extra_defs + '\n====\n')
-        extra = [p]
-    res = tlc.run('MCExprBuilderX' if extra_defs else 'MCExprBuilder', cfg_text=cfg, tag=tag, workers=1 if simulate else None,
-                  deadlock=False, timeout=timeout, extra_modules=extra, coverage=False, **kw)
+        kw = dict(simulate=dict(num=simulate), depth=depth or max(f['MaxNodes'] for f in families) + 1, seed=seed)
+    res = tlc.run('MCExprBuilderX', cfg_text=CFG.format(EmitMin=EmitMin), tag=tag, workers=1 if simulate else None,
+                  deadlock=False, timeout=timeout, extra_modules=[p], coverage=False, **kw)
     if res.violated:
         raise tlc.TLCError('ExprBuilder internal invariant {} violated'.format(res.violated))
     rep.add_tlc(res, exhaustive=exhaustive)
-    seen = {}
-    for prog in res.emitted:
-        seen.setdefault(canon(prog), prog)
-    return list(seen.values())
+    seen = [dict() for _ in families]
+    for e in res.emitted:
+        seen[e['fam'] - 1].setdefault(canon(e['nodes']), e['nodes'])
+    return [list(d.values()) for d in seen]
+
+
+def generate(rep, tag, *, MaxNodes, MaxOps, MaxLeaves, Ops='AllOps', LeafSet='AllLeaves', EmitMin=1,
+             simulate=None, depth=None, seed=0, exhaustive=False, timeout=600, extra_defs=''):
+    """single-vocabulary convenience wrapper around generate_multi"""
+    return generate_multi(rep, tag, [dict(Ops=Ops, LeafSet=LeafSet, MaxNodes=MaxNodes, MaxOps=MaxOps, MaxLeaves=MaxLeaves)],
+                          EmitMin=EmitMin, simulate=simulate, depth=depth, seed=seed, exhaustive=exhaustive, timeout=timeout)[0]
 
 
 def interesting(nodes):
@@ -64,7 +67,7 @@ def interesting(nodes):
 
 
 def select(programs, k, rng, need_arg=False):
-    progs = [p for p in programs if not need_arg or any(n['op'] == 'Arg' for n in p)]
+    progs = [p for p in programs if (not need_arg or any(n['op'] == 'Arg' for n in p)) and not dag.unstable(p)]
     rng.shuffle(progs)
     progs.sort(key=lambda p: -interesting(p) - rng.random())
     # keep a mix: top half by score, rest random
